@@ -53,6 +53,8 @@ structure Cfg where
   peerSharing : Bool
   localQuery : Bool
   localTxMonitor : Bool
+  /-- local WithDelayProtocolStart: setupConnection starts nothing, the application calls Start -/
+  delayStart : Bool := false
 deriving DecidableEq, Repr
 
 /-- `handshakeFullDuplex` -/
@@ -77,13 +79,19 @@ def constructed (c : Cfg) : List Proto :=
     (if c.localTxMonitor then [.localTxMonitor] else [])
 
 /-- receivers registered with the muxer once setupConnection returns (the handshake protocol of
-    the local role stays registered) -/
+    the local role stays registered). The responders are registered by the early
+    `EnsureRegistered` block whatever the start options are; the initiators register in their
+    `Start()`, which setupConnection calls only without WithDelayProtocolStart. -/
 def registered (c : Cfg) : List (Proto × Role) :=
   [(Proto.handshake, if c.server then Role.responder else Role.initiator)] ++
   (if serverSide c then (constructed c).map (fun n => (n, Role.responder)) else []) ++
-  (if clientSide c then
+  (if clientSide c && !c.delayStart then
     ((constructed c).filter (fun n => n != Proto.keepAlive || c.sendKeepAlives)).map (fun n => (n, Role.initiator))
    else [])
+
+/-- the same connection once the application has called the `Start()`s that setupConnection
+    would have called without WithDelayProtocolStart -/
+def afterStart (c : Cfg) : Cfg := { c with delayStart := false }
 
 /-- `muxer.SetDiffusionMode` argument -/
 def muxMode (c : Cfg) : MuxMode :=
